@@ -468,6 +468,10 @@ inductive Later : State → State → Prop
   | refl (s : State) : Later s s
   | step {s s' s'' : State} (ev : Event) : Later s s' → ev.exact = true → step s' ev = some s'' → Later s s''
 
+/-- observation: a call of `Writer.Close` has returned. Close is ONE event per writer (`closeWriter`); every caller
+(`closeOnce.Do` makes concurrent callers wait for the first) returns after it — never while the writer is still open -/
+def closeReturned (s : State) : Option State := if s.isOpen = true then none else some s
+
 /-! ## Specification -/
 
 /-- every segment file the snapshot names is on disk and complete -/
